@@ -16,6 +16,7 @@ ABS = {'A': '1.2.826.0.1.3680043.9.1', 'B': '1.2.826.0.1.3680043.9.22', 'C': '1.
 TS = ['1.2.840.10008.1.2', '1.2.840.10008.1.2.1', '1.2.840.10008.1.2.2', '1.2.840.10008.1.2.5']
 TS_LISTS = [list(p) for k in (1, 2, 3) for p in itertools.permutations(range(4), k)]      # 40 ordered lists
 
+ROLES = [(0, 1), (1, 0), (1, 1), (0, 0)]
 _AES = {}
 CALLS = []
 
@@ -41,7 +42,10 @@ def get_ae(served, supported, scu_rest=False):
         ae = fd.make_ae('SRV', [TS[i] for i in supported])
         for k in served:
             ae.add_scp(SERVICES[k])
-        if scu_rest:
+        if scu_rest == 2:
+            # ... or a service user of every class, served ones included: it is still an SCP for those
+            ae.add_scu(_scu, [ABS[k] for k in 'ABCZ'])
+        elif scu_rest:
             # the entity is also a service USER of every class it does not serve: still not an SCP for them
             ae.add_scu(_scu, [ABS[k] for k in 'ABCZ' if k not in served])
         _AES[key] = ae
@@ -176,7 +180,12 @@ def run_enum(ctx, job):
                 exp0 = [(cid, a, a in served and any(TS[i] in sup for i in tl), None) for cid, a, tl in contexts]
                 probe = pick_probe(contexts, exp0, n)
                 try:
-                    expected = run_request(served, list(supported), contexts, probe, scu_rest=n % 2 == 1)
+                    # role selection for the proposed abstract syntaxes (as this library's own requester sends
+                    # for classes it serves itself): never a reason to refuse or to stop serving a context
+                    roles = [{'t': 0x54, 'r': 0, 'uid': ABS[a], 'scu': ROLES[(n + j) % 4][0], 'scp': ROLES[(n + j) % 4][1]}
+                             for j, a in enumerate(sorted({c[1] for c in contexts}))] if n % 4 < 2 else []
+                    expected = run_request(served, list(supported), contexts, probe, scu_rest=n % 3,
+                                           extra_subs=roles)
                     ctx.case(('enum', served, supported, contexts), nontrivial(expected, contexts, supported),
                              labels=['enum', 'n=%d' % len(contexts)],
                              sample={'served': served, 'supported_ts': list(supported), 'contexts': contexts})
@@ -194,11 +203,15 @@ def random_case(draw):
     ids = draw(st.lists(st.integers(0, 127).map(lambda x: 2 * x + 1), min_size=n, max_size=n, unique=True))
     contexts = [(cid, draw(st.sampled_from('ABCZ')), draw(st.sampled_from(TS_LISTS))) for cid in ids]
     extra = draw(st.lists(st.sampled_from([0x52, 0x53, 0x54, 0x55, 0x56, 0x58]).flatmap(lambda k: g.sub_item(k)),
-                          max_size=3))
+                          max_size=3).map(g._fit))
+    for a in sorted({c[1] for c in contexts}):
+        if draw(st.booleans()):
+            scu, scp = draw(st.sampled_from(ROLES))
+            extra.append({'t': 0x54, 'r': 0, 'uid': ABS[a], 'scu': scu, 'scp': scp})
     return (served, supported, contexts, draw(st.integers(0, 20)), draw(g.u32),
             draw(g.ae_title).strip() or 'X', draw(g.ae_title).strip() or 'Y',
             draw(st.sampled_from(['1.2.840.10008.3.1.1.1', '1.2.3', '1.2.840.10008.3.1.1.1.9'])), extra,
-            draw(st.booleans()))
+            draw(st.integers(0, 2)))
 
 
 def run_random(ctx, n):
@@ -230,7 +243,7 @@ def cleanup():
 
 def run(ctx):
     warnings.simplefilter('ignore')
-    ctx.rule = ('exhaustive: 8 served-class subsets (the entity optionally being a service USER of all other classes) x 16 supported-syntax subsets x all requests with <=1 (quick) / '
+    ctx.rule = ('exhaustive: 8 served-class subsets (the entity optionally being a service USER of all other, or of all, classes; role-selection items for the proposed classes in half of the requests) x 16 supported-syntax subsets x all requests with <=1 (quick) / '
                 '<=2 (thorough) contexts over {3 served candidates, 1 never-served} x all 40 ordered lists of 1-3 '
                 'syntaxes from 4; Hypothesis: 0-8 contexts with arbitrary odd ids, generated AE titles, application '
                 'context, maximum length and extra user sub-items; each request is the decoded form of '
